@@ -872,9 +872,14 @@ pub(crate) fn parse_formatted_number(
     // check if it is a currency in currencies
     for currency in currencies {
         if let Some(p) = value.strip_prefix(&format!("-{currency}")) {
-            let (f, options) = parse_number(p.trim(), decimal_separator, group_separator)?;
+            let p = p.trim();
+            if p.starts_with(['-', '+']) {
+                // "-$-5": two signs
+                return Err("Cannot parse number".to_string());
+            }
+            let (f, options) = parse_number(p, decimal_separator, group_separator)?;
             if options.is_scientific {
-                return Ok((f, Some(scientific_format.to_string())));
+                return Ok((-f, Some(scientific_format.to_string())));
             }
             if options.decimal_digits > 0 {
                 return Ok((-f, Some(format!("{currency}#,##0.00"))));
